@@ -36,7 +36,7 @@ def cases(tier, seed):
         for st in STRUCT:
             for row in range(rows):
                 out.append({"key": f"{st}/n={n}/row={row}", "grp": "struct", "st": st, "n": n, "row": row})
-        for lay in ("F", "T", "view"):
+        for lay in ("F", "T", "view", "ro"):
             out.append({"key": f"generic/n={n}/layout={lay}", "grp": "struct", "st": "generic", "n": n, "row": 0, "lay": lay})
         if n >= 3:
             for mask in range(1 << (n - 2)):
